@@ -215,6 +215,15 @@ pub fn gen(tier: Tier, r: &mut Rng, emit: &mut dyn FnMut(String)) {
 /// generated core-fragment programs x 3 inputs per CLI spawn
 fn gen_runs(tier: Tier, r: &mut Rng, emit: &mut dyn FnMut(String)) {
     use crate::c23::{gen_json, gen_program, gen_root, tame_big_numbers, Ty};
+    // order-sensitive programs on object families (one key set, permuted insertion orders)
+    for p in ["reverse | sort", "unique", "min", "[.[0] < .[1], .[1] < .[0]]"] {
+        emit(format!("C24 run {} {}", hex_bytes(p.as_bytes()), hex_bytes(crate::c23::FAMILY_FIXED.as_bytes())));
+    }
+    for _ in 0..(if tier == Tier::Quick { 40 } else { 4_000 }) {
+        let p = *r.pick(crate::c23::ORDER_PROGS);
+        let inputs: Vec<String> = (0..3).map(|_| hex_bytes(crate::c23::gen_family(r).as_bytes())).collect();
+        emit(format!("C24 run {} {}", hex_bytes(p.as_bytes()), inputs.join(",")));
+    }
     let n = if tier == Tier::Quick { 250 } else { 40_000 };
     let per_spawn = if tier == Tier::Quick { 3 } else { 5 };
     for i in 0..n {
